@@ -1,0 +1,11 @@
+//go:build !verif
+
+package art
+
+// verifRecording is constant false without the "verif" build tag: the constructors' recorder branch is dead code.
+const verifRecording = false
+
+// verifWrap is the identity unless the "verif" build tag is set (see verif_record.go).
+func verifWrap[K any, V any](family string, t Tree[K, V], bck BinaryComparableKey[K]) Tree[K, V] {
+	return t
+}
